@@ -5,27 +5,32 @@ PROP = dict(
     extract=["bopomofo", "syllable", "estimate"],      # the fuzzy search predicate of the walk driver uses the C13 model
     lean_targets=["Chewing.Props.C12"],
     runs=[dict(bin="legacy", timeout=900), dict(bin="corrupt", timeout=1500, timeout_thorough=6000)],
-    scope=fn_scope("loader start", "loader cstart", "walk lookup", "walk entries"),
+    scope=fn_scope("loader start", "loader cstart", "walk lookup", "walk entries", "walk open", "walk validate"),
     level="proof",
     exhaustive=False,
     rule="one evaluation = one call of the real code recomputed by the model: UserDictionaryLoader::load / chewing_new2 over a "
          "directory holding one legacy file (every value of the two length bytes of a binary record, every single-byte overwrite / "
          "truncation / random extension of small valid binary and text files, header values across the integer boundaries, "
-         "arbitrary bytes), and Trie::lookup_* / Trie::entries() over every file Trie::new accepted among all single-byte overwrites "
-         "(4-8 values per byte), truncations, extensions, per-field index rewrites, random index tables and arbitrary bytes of a "
-         "family of valid files, each step in a child process with a 2 s watchdog; the real outcome class ok/panic/hang is part of "
-         "the record and the model must predict it. distinct = distinct record text",
+         "arbitrary bytes); Trie::new on EVERY file of the corrupt-file stream (`walk open`: all single-byte overwrites with 4-8 values "
+         "per byte, truncations, extensions, per-field index rewrites, random index tables, one witness per clause of validate_index, "
+         "the former F16/F17 witnesses, arbitrary bytes — the byte-level model of the der shapes + validate_index must predict "
+         "accept/reject and the decoded sections), validate_index alone on every index assembled by the harness (`walk validate`), and "
+         "Trie::lookup_* / Trie::entries() over every accepted file, each step in a child process with a 2 s watchdog; the real outcome "
+         "class ok/panic/hang is part of the record and the model must predict it (the model's entries() runs with exactly the proved "
+         "bound 16n+2 as fuel). distinct = distinct record text",
     trusted_base=[
-        "crate der 0.7: decoding the outer document into (info, index bytes, phrase bytes) and decoding one phrase record are "
-        "PARAMETERS of the traversal theorems (the phrases the real PhrasesIter decodes per leaf are exported in each record); that "
-        "Trie::new itself never panics on arbitrary bytes is checked by the oracle only (open_total is not proved)",
+        "crate der 0.7: the eight shapes the trie format uses are modelled at byte level (Model/Der.lean, shared with C11) and tied to "
+        "the code by the `walk open` correspondence on every corrupted file; decoding one phrase record (PhrasesIter over a leaf's "
+        "slice) stays a PARAMETER of the traversal theorems (the phrases the real PhrasesIter decodes per leaf are exported in each "
+        "record); that the real Trie::new never panics is observed by the oracle on the same stream (the model is a total function)",
         "the harness reads the decoded index / phrase bytes of an opened Trie from its derived Debug output (no source hook)",
         "debug-assertion profile (the one the repository's tests and this harness build); little-endian, 4-byte c_int platform",
     ],
     assumptions=[
-        "known finding F16: an index that is not a parent-before-child tree hangs entries() and multiplies lookup's thread set "
-        "(entries_terminates_refuted / lookup_blowup proved; partial theorems assume Forward / DisjointRanges)",
-        "known finding F17: a zero syllable at a non-first child position panics entries() (entries_no_panic_refuted)",
+        "F16 / F17 (an index that is not a parent-before-child tree hung entries() and multiplied lookup's thread set; a zero "
+        "syllable at a non-first child position panicked entries()) are repaired in the repository: Trie::new runs validate_index and "
+        "returns Err. The traversal theorems therefore carry the hypothesis `validate t = true` — not an assumption about the file but "
+        "the check the code performs (modelled, in correspondence); validation_needed proves the statements false without it",
         "known finding F39 (dictionary-file form): an entry under the empty key makes every conversion abort (oracle only: the "
         "conversion engine is not part of this model)",
         "F40 (a stored phrase frequency within reach of u32::MAX aborted the first commit that learns the phrase: add with overflow in "
@@ -36,18 +41,25 @@ PROP = dict(
 )
 
 MANIFEST = dict(
-    text="Lean 4 theorems (Chewing/Props/C12.lean) over executable models of the legacy uhash.dat readers (binary 125-byte records, "
-         "text lines; every index/slice a checked accessor) and of the repository's own trie traversal code (lookup thread sets, "
-         "entries() explicit-stack walk, every bail_if_oob! guard) over arbitrary index tables with the der decoders as parameters: "
-         "legacy readers and UserDictionaryLoader::load return (no panic, no fuel exhaustion) for ALL byte strings with at most one "
-         "record per byte; lookup returns for ALL index tables with at most n^|q| threads; entries() never panics under NoZeroChild "
-         "(= not F17) and finishes within 8*2^n+2 loop iterations under Forward (= children after their parent, not F16) by a "
-         "strictly decreasing measure (entries_measure_decreases); refutations with concrete witnesses for F16 (endless loop for every "
-         "fuel; thread blow-up) and F17 (both panic sites). NOT proved: a linear thread / step bound under Forward+DisjointRanges "
-         "(LookupThreadsLinear is stated and refuted in general only). Tie: the model must predict the real outcome "
-         "(result, panic or hang) of every call on systematically corrupted files; an independent oracle reports any panic, abort, "
-         "watchdog timeout or result larger than the file.",
-    note="F14/F15/F39(legacy)/F26 were repaired by fix: commits and are proved absent in the model of the repaired code (witnesses "
-         "kept as theorems about the pre-fix decoder). Trie::new (der crate) on arbitrary bytes is covered by the oracle only.",
-    technique="Lean 4 proof (induction over records/lines/threads, potential-function termination argument) + sampled/systematic model-implementation correspondence with watchdog child processes",
+    text="Lean 4 theorem `C12 : C12_full` (Chewing/Props/C12.lean) over executable models of the legacy uhash.dat readers (binary "
+         "125-byte records, text lines; every index/slice a checked accessor), of Trie::new's structural check validate_index "
+         "(Model/TrieValidate.lean, shared with C11) and of the repository's own trie traversal code (lookup thread sets, entries() "
+         "explicit-stack walk, every bail_if_oob! guard) over arbitrary index tables: legacy readers and UserDictionaryLoader::load "
+         "return (no panic, no fuel exhaustion) for ALL byte strings with at most one record per byte; lookup returns for ALL index "
+         "tables with an answer of at most `first` phrases; for EVERY table Trie::new accepts (validate t = true): a lookup's thread set "
+         "has at most n members (n = index records; threads are distinct records in ascending order), entries() never panics and "
+         "finishes within 16n+2 loop iterations by a strictly decreasing measure (weight = twice the subtree size; the scan of "
+         "validate_index is a breadth-first pass whose frontier argument bounds the root's subtree by n). `trie_file_total`: for ALL "
+         "byte strings the byte-level model of Trie::new (C11's DER model, then validate_index) returns Err or a Trie on which all of "
+         "the above holds (open_total). `witnesses_rejected` / `unvalidated_*` / `validation_needed`: the former F16/F17 witnesses are "
+         "rejected at open; without the validation they loop for every fuel, multiply threads, panic at both sites. C11's "
+         "`validate_write`: every file TrieBuilder::write produces passes the validation. Tie: the model must predict the real outcome "
+         "(accept/reject of Trie::new on every corrupted file; result, panic or hang of every traversal); an independent oracle "
+         "reports any panic, abort, watchdog timeout, result larger than the file, or an accepted index that is not a breadth-first tree.",
+    note="F14/F15/F39(legacy)/F26, F40 and F16/F17 were repaired by fix: commits and are proved absent in the model of the repaired "
+         "code (witnesses kept as theorems about the pre-fix decoder / the unvalidated walk). Still recorded: F39 (dictionary-file "
+         "form) — a file, even one TrieBuilder wrote, holding an entry under the empty key makes every conversion abort; it is a valid "
+         "file (C11 proves it reads back), so the repair belongs to the conversion engine (C03's NoEmptyKey hypothesis), not to the "
+         "validation. A rejected user dictionary makes chewing_new2 return NULL and is left untouched on disk (never overwritten).",
+    technique="Lean 4 proof (induction over records/lines/threads, potential-function termination argument with subtree-size weights, BFS frontier invariant) + systematic model-implementation correspondence with watchdog child processes",
 )
